@@ -34,3 +34,14 @@ BENIGN += [
          old="        if self.index < 0 and len(obj) >= abs(self.index):\n            return len(obj) + self.index\n        return self.index",
          new="        size = len(obj)\n        if self.index >= 0 or -self.index > size:\n            return self.index\n        return size + self.index"),
 ]
+
+FE = S + "filter_expressions.py"
+
+BENIGN += [
+    dict(id="c02-relative-scalar-shortcut", props=["C02"], file=FE,
+         old="        # Start from the current node, but keep the root",
+         new="        if not isinstance(context.current, (list, dict)) and not self.query.empty():\n            return JSONPathNodeList()\n\n        # Start from the current node, but keep the root"),
+    dict(id="c02-truthy-reordered", props=["C02"], file=FE,
+         old="    if isinstance(obj, JSONPathNodeList) and len(obj) == 0:\n        return False\n    if obj is NOTHING:\n        return False",
+         new="    if obj is NOTHING:\n        return False\n    if isinstance(obj, JSONPathNodeList):\n        return not obj.empty()"),
+]
